@@ -25,6 +25,7 @@ pub fn gen_system(rng: &mut Rng, tier: Tier, exact_only: bool, equal_deadlines: 
         allow_composite: true,
         exact_only,
         equal_deadlines,
+        cost_curves: !exact_only,
     };
     let _ = tier;
     g.gen(rng)
@@ -129,7 +130,7 @@ impl Monitor for SafetyUni {
     }
     fn rule(&self) -> String {
         format!(
-            "case = one random task system (1-5 tasks; Periodic / Sporadic with jitter up to 3T / bursty and plateaued delta-min curves / extrapolating curves / propagated and summed models; utilisation 30-110%; limits from tight to generous); for every preemption model of {} and every task the library bound is computed; the system is then executed by the independent scheduler model under canonical synchronous + blocker-one-slot-earlier schedules per analysed task plus randomised releases/execution times/NP placements/tie-breaks; every schedule passes the offline validator before its response times are compared with the bounds. Non-trivial = analysis returned Ok, the system has >= 2 tasks and the analysed task suffered interference or blocking in some schedule (observed response time > its own WCET); distinct = distinct (system, preemption model, task).",
+            "case = one random task system (1-5 tasks; Periodic / Sporadic with jitter up to 3T / bursty and plateaued delta-min curves / extrapolating curves / propagated and summed models; utilisation 30-110%; one task in five carries a cumulative cost curve instead of a scalar WCET where the analysis takes request-bound functions; one task in 25 never releases; limits from tight to generous); for every preemption model of {} and every task the library bound is computed; the system is then executed by the independent scheduler model under canonical synchronous + blocker-one-slot-earlier schedules per analysed task plus randomised releases/execution times/NP placements/tie-breaks; every schedule passes the offline validator before its response times are compared with the bounds. Non-trivial = analysis returned Ok, the system has >= 2 tasks and the analysed task suffered interference or blocking in some schedule (observed response time > its own WCET); distinct = distinct (system, preemption model, task).",
             self.policy.name()
         )
     }
@@ -222,9 +223,10 @@ pub fn check_system(
     let pats = patterns(sys, policy, pre, &bounds, tier, rng);
     let mut max_rt = vec![0u64; n];
     for (pat, tua) in pats {
-        let plan = make_plan(sys, pre, pat, tua, horizon, rng);
+        let curves = crate::model::uni::uses_cost_curves(policy, pre);
+        let plan = crate::sim::uni::make_plan_c(sys, pre, pat, tua, horizon, rng, curves);
         let res = simulate(sys, policy, pre, &plan, cap);
-        let rts = match validate(sys, policy, pre, &plan, &res.schedule) {
+        let rts = match crate::sim::uni::validate_c(sys, policy, pre, &plan, &res.schedule, curves) {
             Ok(r) => r,
             Err(why) => {
                 rep.inconclusive = Some(format!("validator rejected the harness's own schedule ({} {:?}): {}", name, pat, why));
@@ -268,6 +270,12 @@ pub fn check_system(
             rep.count("bound_attained", 1);
         }
         rep.count("bounds_checked", 1);
+        if crate::model::uni::uses_cost_curves(policy, pre) && sys.tasks.iter().any(|t| t.cost_curve.is_some()) {
+            rep.count("bounds_checked_in_systems_with_cost_curve_tasks", 1);
+            if max_rt[i] == r {
+                rep.count("bounds_attained_in_systems_with_cost_curve_tasks", 1);
+            }
+        }
         rep.max("slack_between_bound_and_worst_observed", r - max_rt[i].min(r));
         if n >= 2 && max_rt[i] > sys.tasks[i].wcet {
             let mut w = sys.words();
@@ -295,7 +303,7 @@ pub fn gen_tiny(rng: &mut Rng) -> System {
             let j = *rng.pick(&[0u64, 0, 1, 2]);
             let wcet = rng.range(1, 3.min(t));
             let arr = if j == 0 && rng.chance(1, 2) { Arr::Periodic { t } } else { Arr::Sporadic { t, j } };
-            Task { arr, wcet, deadline: rng.range(1, 10), prio: prios[k], segs: vec![wcet], np_max: wcet }
+            Task { arr, wcet, deadline: rng.range(1, 10), prio: prios[k], segs: vec![wcet], np_max: wcet, cost_curve: None }
         })
         .collect();
     System { tasks }
